@@ -321,7 +321,8 @@ def ddmin_list(items: list, test, budget: list[int]) -> list:
 def minimise(engine: Engine, rec: dict, violation: dict, max_exec: int = 400) -> dict:
     """Greedy fix-point over the engine's candidate stream, same violation class required."""
     cls = violation["cls"]
-    budget = max_exec
+    budget = max_exec if cls != "HANG" else 12     # every candidate of a hanging run costs the full wall guard
+
     cur = rec
     progress = True
     while progress and budget > 0:
